@@ -954,10 +954,13 @@ func (s *Server) SetLabelPropertyConfig(cfg config.LabelPropertyConfig) error {
 
 // SetLabelProperty inserts a label property config.
 func (s *Server) SetLabelProperty(typ, labelKey, labelValue string) error {
+	old := s.persistOptions.GetLabelPropertyConfig()
 	s.persistOptions.SetLabelProperty(typ, labelKey, labelValue)
 	err := s.persistOptions.Persist(s.storage)
 	if err != nil {
-		s.persistOptions.DeleteLabelProperty(typ, labelKey, labelValue)
+		// restore the previous value; applying the inverse operation would
+		// remove a label that was already present before this call
+		s.persistOptions.SetLabelPropertyConfig(old)
 		log.Error("failed to update label property config",
 			zap.String("typ", typ),
 			zap.String("label-key", labelKey),
@@ -973,10 +976,13 @@ func (s *Server) SetLabelProperty(typ, labelKey, labelValue string) error {
 
 // DeleteLabelProperty deletes a label property config.
 func (s *Server) DeleteLabelProperty(typ, labelKey, labelValue string) error {
+	old := s.persistOptions.GetLabelPropertyConfig()
 	s.persistOptions.DeleteLabelProperty(typ, labelKey, labelValue)
 	err := s.persistOptions.Persist(s.storage)
 	if err != nil {
-		s.persistOptions.SetLabelProperty(typ, labelKey, labelValue)
+		// restore the previous value; applying the inverse operation would
+		// add a label that was absent before this call
+		s.persistOptions.SetLabelPropertyConfig(old)
 		log.Error("failed to delete label property config",
 			zap.String("typ", typ),
 			zap.String("label-key", labelKey),
